@@ -54,7 +54,11 @@ theorem Join_begin_apply_eq (j : JoinOp) (l r : Rel) : Gen.Join_begin_apply j l 
     · simp only [hres, Bool.false_eq_true, if_false]
       cases hc : j.commonColumns with
       | error e => rfl
-      | ok c => rfl
+      | ok c =>
+        -- tolerant of the order in which the two operands are checked
+        first
+          | rfl
+          | (by_cases h1 : c.subset l.columns = true <;> by_cases h2 : c.subset r.columns = true <;> simp [h1, h2])
 
 /-- `Join._finish_apply(lhs, rhs)`, as regenerated, is the model's `binaryFinishApply (.join j)`. -/
 theorem Join_finish_apply_eq (j : JoinOp) (l r : Rel) :
